@@ -352,6 +352,32 @@ fn structures(ctx: &mut Ctx) {
         ctx.count("programs", 1);
         judge_no_crash(ctx, &format!("method recursion depth {}", d), &s, &res, "start\n", Some(&format!("start\n{}\n", d)));
     }
+    ctx.stage("faults at the bottom of a deep call stack");
+    // a fault 10..10^5 FML frames deep ends the program as cleanly as at top level
+    let depths: Vec<usize> = if ctx.quick() { vec![10, 100000] } else { vec![10, 1000, 100000] };
+    for d in depths {
+        for (what, bottom) in [("division by zero", "1 / 0"), ("unknown variable", "nosuch"), ("unknown method", "n.nosuch()"), ("print arity", "print(\"~ ~\", n)"), ("cyclic print", "print(\"c ~\", cyc)"), ("index", "cyc.a[5]")] {
+            if ctx.take().is_none() { continue }
+            let s = format!("let cyc = object begin let me = null; let a = array(1, 0) end;\ncyc.me <- cyc;\nfunction down(n) -> if n == 0 then begin print(\"bottom\\n\"); {}; print(\"not reached\\n\") end else 1 + down(n - 1);\nprint(\"start\\n\");\nprint(\"~\\n\", down({}));\nprint(\"not reached either\\n\")", bottom, d);
+            ctx.describe(&s);
+            let res = run_text(ctx, &s, 120);
+            ctx.count("programs", 1); ctx.nontrivial(s.as_bytes());
+            // a clean failing run: exit status 1..127 (no signal), output exactly up to the fault
+            let clean = matches!(res.code, Some(c) if c > 0 && c < 128) && res.out() == "start\nbottom\n";
+            ctx.count("cli_runs", 1);
+            if !clean {
+                let mut problems = vec![];
+                if res.signal.is_some() || res.code.is_none() { problems.push(format!("process ended by signal {:?}", res.signal)) }
+                if res.timed_out { problems.push("process did not terminate within the horizon".to_string()) }
+                if res.code == Some(0) { problems.push("the faulting program reports success".to_string()) }
+                if res.out() != "start\nbottom\n" { problems.push("output is not exactly what was printed before the fault".to_string()) }
+                if res.stderr.is_empty() { problems.push("failure without a diagnostic".to_string()) }
+                ctx.violation(if res.signal.is_some() { "structure/native-crash" } else if res.timed_out { "structure/hang" } else { "structure/not-clean" }, "a fault deep in the call stack does not end the program cleanly",
+                    json!({"what": format!("{} {} frames deep", what, d), "text": s, "problems": problems, "exit": res.code, "signal": res.signal,
+                           "stdout": res.out().chars().take(200).collect::<String>(), "stderr": res.err().chars().take(300).collect::<String>(), "cli": "fml run <file>"}));
+            }
+        }
+    }
     ctx.stage("source nesting depth");
     // ... source nesting depth up to 200
     let nest: Vec<usize> = if ctx.quick() { vec![50, 200] } else { vec![25, 50, 100, 150, 200] };
